@@ -337,7 +337,11 @@ class Waiting(State):
 
     def exit(self) -> None:
         super().exit()
-        if self._waiting_future.done() and not self._waiting_future.cancelled():
+        if not self._waiting_future.done():
+            # The state is left while ``execute`` may still be blocked on the future (the process was failed from
+            # outside the step): release it, the step finds the process terminated and returns
+            self._waiting_future.set_result(NULL)
+        elif not self._waiting_future.cancelled():
             # Nobody is going to await this future any more (an interruption delivered while the state was not
             # executing): do not leave an exception behind that is never retrieved
             self._waiting_future.exception()
